@@ -4,6 +4,9 @@ package drive
 
 import (
 	"fmt"
+	"hash/fnv"
+	"math"
+	"os"
 	"reflect"
 	"time"
 
@@ -68,7 +71,55 @@ func (v *V2) Inject(n codec.Node, yaml bool) (jd.JsonNode, error) {
 	if yaml {
 		return jd.ReadYamlString(v.T.Text(n))
 	}
-	return jd.ReadJsonString(v.T.Spell(n, false))
+	return v.enter(n, false)
+}
+
+// enter builds the document through one of the library's entry points, chosen by a hash of its text: ReadJsonString on
+// one of the spellings (most), NewJsonNode on plain Go values (integral numbers as int), ReadJsonFile on a temporary file.
+func (v *V2) enter(n codec.Node, negz bool) (jd.JsonNode, error) {
+	plain := v.T.Text(n)
+	h := fnv.New32a()
+	h.Write([]byte(plain))
+	switch h.Sum32() / 7 % 8 {
+	case 6:
+		if !negz {
+			if r, ok := v.T.Raw(n); ok {
+				return jd.NewJsonNode(goValue(r))
+			}
+		}
+	case 7:
+		f, err := os.CreateTemp("", "jdv-doc-*.json")
+		if err == nil {
+			defer os.Remove(f.Name())
+			f.WriteString(v.T.Spell(n, negz))
+			f.Close()
+			return jd.ReadJsonFile(f.Name())
+		}
+	}
+	return jd.ReadJsonString(v.T.Spell(n, negz))
+}
+
+// goValue turns integral float64 numbers into int, as a Go caller of NewJsonNode would write them.
+func goValue(r any) any {
+	switch x := r.(type) {
+	case float64:
+		if x == math.Trunc(x) && math.Abs(x) < 1e15 && !(x == 0 && math.Signbit(x)) {
+			return int(x)
+		}
+	case []any:
+		out := make([]any, len(x))
+		for i, e := range x {
+			out[i] = goValue(e)
+		}
+		return out
+	case map[string]any:
+		out := map[string]any{}
+		for k, e := range x {
+			out[k] = goValue(e)
+		}
+		return out
+	}
+	return r
 }
 
 // InjectB is Inject for the b side of a pair.
@@ -79,7 +130,7 @@ func (v *V2) InjectB(n codec.Node, yaml bool) (jd.JsonNode, error) {
 	if yaml {
 		return jd.ReadYamlString(v.T.TextNZ(n))
 	}
-	return jd.ReadJsonString(v.T.Spell(n, true))
+	return v.enter(n, true)
 }
 
 func (v *V2) MustInject(n codec.Node) jd.JsonNode {
@@ -361,4 +412,45 @@ func (v *V2) Equals(a, b codec.Node, o codec.Opts, yaml bool) Res {
 		e := ja.Equals(jb, v.Options(o)...)
 		return Res{St: "ok", Bool: &e}
 	})
+}
+
+// ReadDiffAny, ReadPatchAny and ReadMergeAny read a text through the string entry point or, for one text in eight
+// (by a hash of the text), through the file entry point of the same reader.
+func viaFile(text string) (string, bool) {
+	h := fnv.New32a()
+	h.Write([]byte(text))
+	if h.Sum32()/11%8 != 3 {
+		return "", false
+	}
+	f, err := os.CreateTemp("", "jdv-text-*")
+	if err != nil {
+		return "", false
+	}
+	f.WriteString(text)
+	f.Close()
+	return f.Name(), true
+}
+
+func ReadDiffAny(text string) (jd.Diff, error) {
+	if name, ok := viaFile(text); ok {
+		defer os.Remove(name)
+		return jd.ReadDiffFile(name)
+	}
+	return jd.ReadDiffString(text)
+}
+
+func ReadPatchAny(text string) (jd.Diff, error) {
+	if name, ok := viaFile(text); ok {
+		defer os.Remove(name)
+		return jd.ReadPatchFile(name)
+	}
+	return jd.ReadPatchString(text)
+}
+
+func ReadMergeAny(text string) (jd.Diff, error) {
+	if name, ok := viaFile(text); ok {
+		defer os.Remove(name)
+		return jd.ReadMergeFile(name)
+	}
+	return jd.ReadMergeString(text)
 }
